@@ -126,7 +126,8 @@ Inductive ev :=
 | LWait (evs : list (Z * Z))             (* epoll_wait(16) result, array order *)
 | LFire (data : Z)                       (* datacb(data) *)
 | LRes (t ret errno : Z)                 (* thread t's wait_for_fd returned *)
-| LCall (code ret : Z) (out : list Z).   (* a direct call of the driver returned: 1 add 2 rm 3 wait_for_events *)
+| LCall (code ret : Z) (out : list Z)    (* a direct call of the driver returned: 1 add 2 rm 3 wait_for_events *)
+| LMark.                                 (* a script step begins *)
 
 Inductive wst := Waiting (fd interest deadline : Z) | Finished.
 
@@ -373,4 +374,4 @@ Definition EVFD : Z := 901.
 Definition init_st : st :=
   snd (ctl EVFD CTL_ADD (Z.lor (Z.lor EPOLLIN EPOLLRDHUP) EPOLLET) 0
            (mkst (mkkern [] []) [] 0 [] EVFD 0 1000 [] [])).
-Definition run_engine (steps : list step) : st := fold_left (fun s x => do_step x s) steps init_st.
+Definition run_engine (steps : list step) : st := fold_left (fun s x => do_step x (add_log LMark s)) steps init_st.
